@@ -254,5 +254,13 @@ func Run(dir, prop string, seed uint64, n int) error {
 		out.Sample(label)
 	}
 	out.Stats["rule"] = "generated clusters (1-3 nodes, 0-4 GPUs, 1-3 queues with quotas/limits, 2-7 jobs of 1-3 pods: whole / fractional / multi-fraction / gpu-memory / cpu-only / best-effort, gangs with minMember and two pod sets, pending / running / mixed / terminating) assembled with the real constructors; the real actions (allocate, then a random subset of consolidation, reclaim, preempt, stalegangeviction) run once with the default plugin tiers and a recording cache. Non-trivial = the cycle issued at least one Bind / Evict / TaskPipelined; distinct by cluster and decisions."
+	switch prop {
+	case "C01":
+		out.Stats["rule"] = out.Stats["rule"].(string) + " Plus the same kind of clusters with injected failures of the k-th Bind / Evict Cache call (k < 8, each with probability 1/3 resp. 1/5): only the monitor (occupying + successfully bound <= allocatable) is evaluated on them."
+	case "C02":
+		out.Stats["rule"] = out.Stats["rule"].(string) + " Plus function-level decision cases: generated nodes (1-4 GPUs, up to 6 shared / whole-GPU occupants running, terminating, bound or nominated) and a pending fractional / multi-fraction / gpu-memory task; the real GetNodePreferableGpuForSharing is called with the candidate list in pack, spread or shuffled order."
+	case "C03":
+		out.Stats["rule"] = out.Stats["rule"].(string) + " Plus function-level gang cases: generated pod groups (1-3 pod sets, 0-4 pods each in any status, real or simulated allocation) on which the real GetTasksToAllocate / GetTasksToEvict / readiness getters are called with the production pod-set order."
+	}
 	return out.Flush()
 }
